@@ -144,6 +144,9 @@ package dns
 //@   modifies MS.mapLstringJint MS.mapLstringJuint16
 //@ func packRR [C01 C02 C08 C16]
 //@   requires 0 <= off
+// RFC 1035 3.2.1: RDLENGTH is the number of RDATA octets that follow - written for every record, also for one without
+// RDATA, whatever the header struct's own Rdlength field held
+//@   ensures rdlength: err == nil ==> msg[headerEnd-2] * 256 + msg[headerEnd-1] == off1 - headerEnd [C01]
 //@   ensures mono: err == nil ==> off + 10 <= headerEnd && headerEnd <= off1 && off1 <= len(msg) && rr != nil
 //@   ensures root: err == nil && isdot(hdr(rr).Name) ==> headerEnd == off + 11
 //@ func PackRR [C01 C02 C08 C16]
